@@ -7,7 +7,7 @@ use discret::verif_hooks::database::room::Room;
 use discret::verif_hooks::database::room_node::RoomNode;
 use discret::verif_hooks::database::Error as DbError;
 use discret::verif_hooks::event_service::EventService;
-use discret::verif_hooks::security::{base64_encode, Uid};
+use discret::verif_hooks::security::Uid;
 use std::path::PathBuf;
 use tokio::sync::oneshot;
 
@@ -57,7 +57,6 @@ pub fn class(e: &DbError) -> String {
 pub struct Inst {
     pub svc: GraphDatabaseService,
     pub key: Vec<u8>,
-    pub key64: String,
     pub folder: PathBuf,
     pub secret: [u8; 32],
 }
@@ -83,7 +82,6 @@ impl Inst {
         .await?;
         Ok(Inst {
             svc,
-            key64: base64_encode(&key),
             key,
             folder,
             secret,
